@@ -12,7 +12,7 @@ from fsx.core import D, F
 ID = 'C09'
 LEVEL = 'exploration'
 RULE = ('result tables whose values are file names containing every byte 1..127 except / at the start, middle and end of a '
-        'name, multi-byte UTF-8 and combinations of every format\'s separators; 0, 1, 2 and many rows; 1..6 distinct plain '
+        'name, multi-byte UTF-8, every ordered pair of 20 separator/markup characters, and combinations of every format\'s separators; 0, 1, 2 and many rows; 1..6 distinct plain '
         'columns; x six formats x four result paths (streamed, ordered buffer, single aggregate row, grouped rows) x '
         'limited/unlimited; every decoded table must equal the table decoded from `into list` of the same query; '
         'non-trivial = table has at least one value containing a separator or markup character of the format')
@@ -38,6 +38,10 @@ def all_names():
                 names.append(n)
     names += ['é中.txt', 'naïve file.TXT', 'a,b"c\td\ne', '<td>x<td>', '&amp;', '"quoted"', "it's", 'a,b', 'tab\there', '<!--', ']]>',
               '{"k":"v"}', '[1,2]', '<tr><tr>', 'a&b<c>d', 'x\r\ny', '\\n', 'null', '"', ',', '<', '&', "'"]
+    seps = [',', '"', "'", '\t', '\n', '\r', '<', '>', '&', ';', '\\', '{', '}', '[', ']', ':', ' ', '#', '%', '=']
+    for a in seps:
+        for b_ in seps:
+            names.append('p' + a + b_ + 'q')
     return sorted(n for n in set(names) if '/' not in n)
 
 
@@ -45,7 +49,8 @@ def plain(n):
     return not any(c in n for c in '\t\n\r')
 
 
-COLSETS = [['name'], ['name', 'size'], ['size', 'name', 'is_dir'], ['name', 'size', 'path', 'ext', 'is_dir', 'mode']]
+COLSETS = [['name'], ['name', 'size'], ['size', 'name', 'is_dir'], ['name', 'size', 'path', 'ext', 'is_dir', 'mode'],
+           ['path'], ['ext', 'name'], ['name', 'path', 'ext', 'size'], ['mode', 'is_dir', 'size', 'name', 'ext'], ['path', 'name'], ['size']]
 FORMATS = ['json', 'csv', 'html', 'tabs', 'lines']
 
 
@@ -64,9 +69,9 @@ def groups(tier, seed):
     for d in ('d0', 'd1', 'd2', 'many', 'plain'):
         for path in ('stream', 'ordered', 'aggregate', 'grouped', 'grouped-ordered'):
             cases = []
-            for ci, cols in enumerate(COLSETS):
+            for ci, cols in enumerate(COLSETS if tier == 'thorough' else COLSETS[:6]):
                 for fmt in FORMATS:
-                    for lim in (None, 1, 3):
+                    for lim in ((None, 1, 3) if tier == 'quick' else (None, 1, 2, 3, 5, 1000)):
                         if path in ('aggregate',) and (ci > 1 or lim):
                             continue
                         if path.startswith('grouped') and (ci > 1 or lim):
